@@ -2,6 +2,7 @@
   pabu_driver — reads one case per line on stdin, prints one answer line per case.
 -/
 import Driver.Rules
+import Driver.Exhaust
 open Pabu Pabu.Driver
 
 def dispatch (line : String) : String :=
@@ -15,6 +16,7 @@ def dispatch (line : String) : String :=
     | "greedy" => cmdGreedy a
     | "phragmen" => cmdPhragmen a
     | "maxw" => cmdMaxw a
+    | "exhaust" => cmdExhaust a
     | _ => "bad-op"
 
 partial def loop (h : IO.FS.Stream) (out : IO.FS.Stream) : IO Unit := do
